@@ -151,7 +151,23 @@ func (h *vAS) exec(op []string) {
 			FastRtxWnd:           u(8),
 			CwndCAStep:           u(9),
 		}
+		if len(op) >= 14 { // optional RACK settings (ns; 0 = default): reordering-window floor, worst-case delayed ack, min-RTT window
+			var opts []AssociationRACKOption
+			if v := vAtoU64(t, op[10]); v > 0 {
+				opts = append(opts, WithRackReoWndFloor(time.Duration(v)))
+			}
+			if v := vAtoU64(t, op[11]); v > 0 {
+				opts = append(opts, WithRackWCDelAck(time.Duration(v)))
+			}
+			if v := vAtoU64(t, op[12]); v > 0 {
+				opts = append(opts, WithRackMinRTTWnd(time.Duration(v)))
+			}
+			if err := WithRACKOptions(opts...).applyClient(cfg); err != nil {
+				t.Fatal(err)
+			}
+		}
 		a := createAssociationFromConfigWithTsn(cfg, u(6))
+		vRackNew(u(6))
 		a.lock.Lock()
 		a.useInterleaving = op[5] == "1"
 		a.useForwardTSN = true
@@ -292,7 +308,7 @@ func (h *vAS) exec(op []string) {
 		h.l.line(line, "")
 	case "tick": // advance the virtual clock: the association's own timers (T3, RACK, PTO) may fire
 		n0 := h.a.stats.getNumT3Timeouts()
-		time.Sleep(time.Duration(u(2)) * time.Millisecond)
+		h.vRackSleep(time.Duration(u(2)) * time.Millisecond) // the same sleep, in sub-steps that end at the RACK / PTO deadlines
 		synctest.Wait()
 		h.a.lock.Lock()
 		marks := h.rtxMarks()
@@ -312,6 +328,7 @@ func (h *vAS) exec(op []string) {
 	if op[1] != "new" {
 		h.logState()
 	}
+	h.vRackLog() // white-box RACK / PTO / TLR state after every op (rack_test.go)
 }
 
 func (h *vAS) do(f string, a ...any) { h.exec(strings.Fields(fmt.Sprintf(f, a...))) }
@@ -574,7 +591,7 @@ func TestVerifAssocSender(t *testing.T) {
 		defer h.closeAssoc()
 		if ops := vReadOps(t); ops != nil {
 			for _, op := range ops {
-				if op[0] == "as" && op[1] != "st" && op[1] != "ora" {
+				if op[0] == "as" && op[1] != "st" && op[1] != "ora" && op[1] != "rk" && op[1] != "rke" {
 					h.exec(op)
 				}
 			}
